@@ -169,7 +169,15 @@ var strFns = map[string]strFn{
 	"strings.TrimRight":  {1, func(s string, c []string) []any { return []any{strings.TrimRight(s, c[0])} }, sepPool},
 	"strings.EqualFold":  {1, func(s string, c []string) []any { return []any{strings.EqualFold(s, c[0])} }, func(c []string) []string { return []string{c[0], strings.ToUpper(c[0]), strings.ToLower(c[0])} }},
 	"strings.ReplaceAll": {2, func(s string, c []string) []any { return []any{strings.ReplaceAll(s, c[0], c[1])} }, sepPool},
-	"strings.SplitN":     {1, nil, nil}, // placeholder: handled as unsupported below
+	"strings.CutSuffix": {1, func(s string, c []string) []any {
+		a, ok := strings.CutSuffix(s, c[0])
+		return []any{a, ok}
+	}, sepPool},
+	"strings.CutPrefix": {1, func(s string, c []string) []any {
+		a, ok := strings.CutPrefix(s, c[0])
+		return []any{a, ok}
+	}, sepPool},
+	"strings.SplitN": {1, nil, nil}, // placeholder: handled as unsupported below
 }
 
 func (t *Thread) strResult(vals []any) Value {
@@ -242,7 +250,7 @@ func stubStringsFn(name string, sf strFn) stubFn {
 				e.unsupported(name + " with a symbolic non-first argument at " + t.posOf(pos))
 			}
 			cs[i] = e.eng.strOf(uint32(c.C))
-			if genericName(cs[i]) && name != "strings.EqualFold" {
+			if cs[i] != "" && strings.Trim(cs[i], "sym0123456789") == "" && name != "strings.EqualFold" {
 				// a separator made of the very characters generic identifiers consist of: not modelled
 				e.unsupported(name + " with an alphanumeric pattern " + cs[i])
 			}
